@@ -368,6 +368,22 @@ func genKeySignature(r *Rng, p *pool, tier string, emit Emit) {
 	emit("C", "bg_ks_verify", append(bargs, btable...)...)
 }
 
+// SetSignature field assembly (scheme detection, hash defaulting, sizes, versions) against the model
+func genSetSignature(r *Rng, p *pool, emit Emit) {
+	msg := H(r.Bytes(r.Pick(0, 1, 32, 50)))
+	k := p.anyRSA(r)
+	sa := r.Pick(0, 0, int(cbnt.AlgRSASSA), int(cbnt.AlgRSAPSS), int(cbnt.AlgECDSA), int(cbnt.AlgSM2), 0x99, 1)
+	ha := r.Pick(0, int(cbnt.AlgNull), int(cbnt.AlgSHA256), int(cbnt.AlgSHA384), int(cbnt.AlgSHA1), int(cbnt.AlgSHA512), int(cbnt.AlgSM3), 0x99)
+	emit("C", "set_signature", privSpec(k), "rsa", Big(k.N), I(int64(k.E)), N(uint64(sa)), N(uint64(ha)), msg, N(r.U64()>>1))
+	e := p.ecc[r.Intn(len(p.ecc))]
+	sa = r.Pick(0, 0, int(cbnt.AlgECDSA), int(cbnt.AlgECDSA), int(cbnt.AlgSM2), 0x99)
+	ha = r.Pick(0, int(cbnt.AlgNull), int(cbnt.AlgSHA256), int(cbnt.AlgSHA384), int(cbnt.AlgSHA1), int(cbnt.AlgSHA512), int(cbnt.AlgSM3), 0x99)
+	emit("C", "set_signature", privSpec(e), "ecc", Big(e.X), Big(e.Y), N(uint64(sa)), N(uint64(ha)), msg, N(r.U64()>>1))
+	s := p.sm[r.Intn(len(p.sm))]
+	sa = r.Pick(0, 0, int(cbnt.AlgSM2), int(cbnt.AlgSM2), int(cbnt.AlgECDSA), 0x99)
+	emit("C", "set_signature", privSpec(s), "sm2", Big(s.X), Big(s.Y), N(uint64(sa)), N(uint64(ha)), msg, N(r.U64()>>1))
+}
+
 func genSignOracles(r *Rng, p *pool, tier string, it int, emit Emit) {
 	all := tierFlag(tier)
 	msg := r.Bytes(r.Pick(1, 16, 32, 33, 48, 64, 200))
@@ -785,6 +801,7 @@ func gen(r *Rng, tier string, emit Emit) {
 		genEncodings(rr.Fork(1), emit)
 		genKeySignature(rr.Fork(2), p, tier, emit)
 		genSignOracles(rr.Fork(3), p, tier, it, emit)
+		genSetSignature(rr.Fork(13), p, emit)
 		genBpmKey(rr.Fork(4), p, tier, it, emit)
 		genIbb(rr.Fork(5), tier, it, emit)
 		genPsb(rr.Fork(6), p, tier, it, emit)
